@@ -208,6 +208,25 @@ func Build(s VSpec) value.Value {
 	switch s.K {
 	case "int":
 		b, _ := new(big.Int).SetString(s.S, 10)
+		// B[0] selects the route by which the runtime itself produces the integer: the result must be
+		// indistinguishable from the directly built one (same representation, hash, equality)
+		if len(s.B) == 1 {
+			one := value.SmallInt(1).ToValue()
+			var v, err value.Value
+			switch s.B[0] {
+			case 1: // negation of the opposite number
+				v = value.NegateVal(ElkInt(new(big.Int).Neg(b)))
+			case 2: // (n - 1) + 1
+				v, err = value.AddVal(ElkInt(new(big.Int).Sub(b, big.NewInt(1))), one)
+			case 3: // (n + 1) - 1
+				v, err = value.SubtractVal(ElkInt(new(big.Int).Add(b, big.NewInt(1))), one)
+			case 4: // (n * 2) / 2
+				v, err = value.DivideVal(ElkInt(new(big.Int).Mul(b, big.NewInt(2))), value.SmallInt(2).ToValue())
+			}
+			if !v.IsUndefined() && err.IsUndefined() {
+				return v
+			}
+		}
 		return ElkInt(b)
 	case "float":
 		u, _ := strconv.ParseUint(s.S, 16, 64)
